@@ -151,13 +151,17 @@ Definition ip_checksum (l3 : N) : M N :=
   let s2 := N.land s1 M16 + N.shiftr s1 16 in
   ret (M16 - N.land s2 M16).
 
-(* bpf_xdp_adjust_tail(ctx, delta) + `if (ret != 0) return XDP_PASS;` + `return XDP_TX;` *)
-Definition adjust_ok (e : env) (newlen : N) : bool := (14 <=? newlen) && (newlen <=? e_maxlen e).
+(* bpf_xdp_adjust_tail(ctx, delta) + `if (ret != 0) return XDP_PASS;` + `return XDP_TX;`
+   The helper refuses a new length below ETH_HLEN and, when growing, one beyond the frame's tailroom
+   (e_maxlen); on success the frame is cut or extended with zero bytes.
+   orig_len is the C's `(__u16)(data_end - data)`. *)
+Definition adjust_ok (e : env) (dl newlen : N) : bool :=
+  (14 <=? newlen) && ((newlen <=? dl) || (newlen <=? e_maxlen e)).
 Definition adjust_and_return (e : env) (dl total_len : N) : M N := fun f =>
   let orig_len := u16t dl in
   if total_len =? orig_len then Exit XDP_TX f else
   let newlen := dl - orig_len + total_len in
-  if adjust_ok e newlen then Exit XDP_TX (resize newlen f) else Exit XDP_PASS f.
+  if adjust_ok e dl newlen then Exit XDP_TX (resize newlen f) else Exit XDP_PASS f.
 
 Definition dhcp_body (mp : maps) (e : env) (dl : N) : M N :=
   (* parse_packet_headers *)
